@@ -28,7 +28,7 @@ EXHAUSTIVE = {"quick": "all operation histories up to length 3 over the 14-opera
               "thorough": "all operation histories up to length 4 over the 14-operation alphabet"}
 REQUIRED = ["probes_contains", "probes_getitem", "probes_getattr", "probes_get", "probes_get_add",
             "probes_delitem", "probes_setvalue", "probes_int", "probes_slice",
-            "states_with_duplicates", "states_norm_on", "probes_get_default_kinds", "probes_int_numpy_or_bool"]
+            "states_with_duplicates", "states_norm_on", "probes_get_default_kinds", "probes_int_numpy_or_bool", "probes_slice_delete"]
 SOFT_DEADLINE = {"quick": 90, "thorough": 1200}
 
 NAMES = ["A", "a", "B", "", "1", "A:1", "_A"]      # "_A": a legal mnemonic that looks like a private attribute; "A:1" collides with a generated suffix: the only way to reach duplicate session names
@@ -386,6 +386,19 @@ def probe_state(ctx, rebuild, norm, tag):
             if a5[:len(b5)] != b5 or len(a5) > len(b5) + 1:
                 V("get-add-damaged-section", "s.get(%r, add=True) on a present key changed existing items" % k,
                   {"state": sessions, "norm": norm})
+    for sl in (slice(None), slice(1, None), slice(None, -1), slice(0, 1), slice(None, None, 2), slice(5, 9)):
+        # "slices address positions exactly as in a list", deletion included
+        s9 = rebuild()
+        ref = list(secops.raw_items(s9))
+        del ref[sl]
+        ctx.count("probes_slice_delete")
+        try:
+            del s9[sl]
+        except Exception as e:
+            V("slice-delete-raises", "del s[%r] raised %s" % (sl, type(e).__name__), {"state": sessions})
+            continue
+        if [id(x) for x in secops.raw_items(s9)] != [id(x) for x in ref]:
+            V("slice-delete-vs-list", "del s[%r] disagrees with list deletion (n=%d)" % (sl, n), {"state": sessions})
     for i in int_range:
         s6 = rebuild()
         it6 = secops.raw_items(s6)
